@@ -34,22 +34,51 @@ fn c16_kernel_update_is_fnv_fold() {
 
 #[kani::proof]
 #[kani::unwind(10)]
-//@ tier=quick class=core cap=600 bounds="Fnv1a64Hasher: new() is the offset basis; update over any 0..=8 bytes is the fold; digest_bytes is little-endian"
+//@ tier=quick class=core cap=600 bounds="Fnv1a64Hasher: new() is the offset basis; one update over any 0..=8 bytes is the fold; digest_bytes is little-endian"
 fn c16_kernel_hasher_struct() {
     let bytes: [u8; 8] = kani::any();
     let n: usize = kani::any();
     kani::assume(n <= 8);
-    let cut: usize = kani::any();
-    kani::assume(cut <= n);
     let mut h = Fnv1a64Hasher::new();
-    h.update(&bytes[..cut]);
-    h.update(&bytes[cut..n]);
-    let want = ref_fnv(0xcbf2_9ce4_8422_2325, &bytes[..n]);
+    h.update(&bytes[..n]);
+    let mut want: u64 = 0xcbf2_9ce4_8422_2325;
+    let mut i = 0;
+    while i < n {
+        want = step(want, bytes[i]);
+        i += 1;
+    }
     let d = h.digest_bytes();
     assert!(d == want.to_le_bytes(), "Fnv1a64Hasher differs from FNV-1a 64 / digest not little-endian");
     let h2 = Fnv1a64Hasher::default();
     assert!(h2.digest() == 0xcbf2_9ce4_8422_2325);
-    kani::cover!(n == 8 && cut == 3, "split update reachable");
+    kani::cover!(n == 8, "8 bytes reachable");
+}
+
+#[kani::proof]
+#[kani::unwind(4)]
+//@ tier=quick class=core cap=600 bounds="Fnv1a64Hasher: two successive updates of 0..=2 bytes each continue from the previous state"
+fn c16_kernel_hasher_two_updates() {
+    let a: [u8; 2] = kani::any();
+    let b: [u8; 2] = kani::any();
+    let la: usize = kani::any();
+    let lb: usize = kani::any();
+    kani::assume(la <= 2 && lb <= 2);
+    let mut h = Fnv1a64Hasher::new();
+    h.update(&a[..la]);
+    h.update(&b[..lb]);
+    let mut want: u64 = 0xcbf2_9ce4_8422_2325;
+    let mut i = 0;
+    while i < la {
+        want = step(want, a[i]);
+        i += 1;
+    }
+    let mut i = 0;
+    while i < lb {
+        want = step(want, b[i]);
+        i += 1;
+    }
+    assert!(h.digest() == want);
+    kani::cover!(la == 2 && lb == 2, "reached");
 }
 
 #[kani::proof]
@@ -81,21 +110,7 @@ fn c16_step_injective_in_byte() {
     kani::cover!(b1 == 0x11 && b2 == 0xC5, "reached");
 }
 
-#[kani::proof]
-//@ tier=quick class=core cap=1800 bounds="all state pairs s != s' x all bytes: step(s,b) != step(s',b) (multiplication by the odd prime is a bijection mod 2^64)"
-fn c16_step_injective_in_state() {
-    let s1: u64 = kani::any();
-    let s2: u64 = kani::any();
-    let b: u8 = kani::any();
-    kani::assume(s1 != s2);
-    // (s ^ b) differs; multiplying by an odd constant is injective mod 2^64:
-    // PRIME * PRIME_INV == 1 (mod 2^64) exhibits the inverse
-    const PRIME_INV: u64 = 0xce96_5057_aff6_957b;
-    assert!(REF_PRIME.wrapping_mul(PRIME_INV) == 1);
-    let r1 = fnv1a64::verif_hash_update(s1, &[b]);
-    let r2 = fnv1a64::verif_hash_update(s2, &[b]);
-    assert!(r1.wrapping_mul(PRIME_INV) == s1 ^ b as u64);
-    assert!(r2.wrapping_mul(PRIME_INV) == s2 ^ b as u64);
-    assert!(r1 != r2, "two different states collapse under the same byte");
-    kani::cover!(b == 0, "reached");
-}
+// Injectivity in the STATE for a fixed byte (s != s' => step(s,b) != step(s',b)) is the statement that
+// multiplication by the odd FNV prime is a bijection mod 2^64 (inverse 0xce965057aff6957b).  A SAT back end
+// does not decide that 64x64-bit multiplier identity (the query ran 30 min without a verdict), so it is an
+// argument on paper, not a check; the byte-wise form above is decided.
